@@ -13,6 +13,9 @@ from .. import simdisk, models
 from ..core import EventLog
 from . import c17
 
+# largest observed (deviation / tolerance) of a comparison that passed
+MARGIN = [0.0]
+
 ID = "C16"
 LEVEL = "exploration"
 ENGINE = "simdisk"
@@ -257,7 +260,11 @@ def _close_enough(a, b, rtol):
     if a.shape != b.shape:
         return False
     scale = max(1.0, float(np.max(np.abs(b))) if b.size else 1.0)
-    return bool(np.all(np.abs(a - b) <= rtol * scale))
+    ok = bool(np.all(np.abs(a - b) <= rtol * scale))
+    if ok and a.size:
+        MARGIN[0] = max(MARGIN[0],
+                        float(np.max(np.abs(a - b))) / (rtol * scale))
+    return ok
 
 
 class Entry:
@@ -477,6 +484,7 @@ def run_case(case, dec):
         "probes": dict(stats), "faults_fired": {},
         "nontrivial": stats["imports"] + stats["ptt_file"] > 0,
         "key": "imports%d/uses%d" % (stats["imports"], stats["uses"]),
+        "margin": MARGIN[0],
         "stats": stats,
     }
 
@@ -527,4 +535,6 @@ def summarize(results):
     for r in results:
         for k, v in (r.get("stats") or {}).items():
             tot[k] = tot.get(k, 0) + v
-    return {"operations": tot}
+    return {"operations": tot,
+            "largest_passing_deviation_over_tolerance": max(
+                [r.get("margin", 0.0) for r in results] or [0.0])}
